@@ -2,7 +2,7 @@ from .core import BASE_TRUST
 
 META = {
     "category": "proof",
-    "text": "Lean 4 theorems over a model of the comparison ladder, ternary logic, BETWEEN/IN/ANY/ALL/IS/CASE and arithmetic, for all coercion profiles and all lists; model tied to /repo by a differential correspondence run (direct library calls and SELECT text) on every run",
+    "text": "Lean 4 theorems over a model of the comparison ladder, ternary logic, BETWEEN/IN/ANY/ALL/IS/CASE and arithmetic, for all coercion profiles and all lists (incl. the empty set a sub-query can produce: any_empty / all_empty), exactness of the float image of integers and of float +, -, * on integers below 2^53 (float_int_*_agree), casts; model tied to /repo by a differential correspondence run (direct library calls and SELECT text) on every run",
     "design_ref": "DESIGN.md section 5, C06",
     "note": "trusted: Lean kernel (axioms propext, Classical.choice, Quot.sound only), harness + driver, Go stdlib conversions (enter as profiles), IEEE-754 hardware (FloatOps parameter)",
     "technique": "Lean 4 machine-checked proof over a hand-written model + differential correspondence with the Go implementation",
